@@ -109,7 +109,7 @@ theorem conflict_after_clean_undetected :
     List.mem_cons_of_mem _ List.mem_cons_self, rfl, by decide⟩
 
 /-- The same between the core generator and a plugin (`a/a.go` vs `a//a.go`). -/
-theorem conflict_after_clean_undetected_core :
+theorem conflict_after_clean_core :
     ∃ ws, generatePlan "/r".toList "/o".toList [⟨"/r/a.thrift".toList, some [1]⟩]
         [some [("a//a.go".toList, [2])]] [0] = .ok ws ∧
       ∃ a ∈ ws, ∃ b ∈ ws, a.1 = b.1 ∧ a.2 ≠ b.2 :=
@@ -231,7 +231,7 @@ theorem core_paths_from_root_ancestry (root f : Str) (ha : isAbs root = true) (h
 
 /-- (iii-d) … and without `--thrift-root`: the same for every module when the root is the
 `findCommonAncestor` of cleaned absolute module paths. -/
-theorem core_paths_from_root_common_ancestor (fs : List Str) (root f : Str)
+theorem core_paths_common_ancestor (fs : List Str) (root f : Str)
     (hfs : ∀ g ∈ fs, CleanAbs g) (h : findCommonAncestor fs = some root) (hf : f ∈ fs)
     (hne : f ≠ root) (hlast : NotDotDotName f) :
     ∃ p, modulePath root f = some p ∧ (∀ c ∈ splitSlash p, c ≠ dotdot) ∧
@@ -303,7 +303,7 @@ theorem findCommonAncestor_example :
   findCommonAncestor_examples
 
 /-- With an explicit root the D34 file is refused (its relative path "...thrift" starts with ".."). -/
-theorem dotdot_thrift_rejected_with_explicit_root :
+theorem dotdot_thrift_explicit_root :
     cliPlan "/w".toList (some "/r".toList) "/o".toList [⟨"/r/...thrift".toList, some [7]⟩] [] []
       = .error .moduleFailed :=
   ThriftVerif.Proto.dotdot_thrift_rejected_with_explicit_root
